@@ -318,6 +318,8 @@ impl GroupCommitQueue {
                 if remaining.is_zero() {
                     return Err("group commit timeout".to_string());
                 }
+                #[cfg(kahflane_turdb_verif)]
+                crate::verif_hooks::yield_point("gc.wait.cond");
                 self.flush_complete.wait_for(&mut state, remaining);
             }
         }
